@@ -159,6 +159,47 @@ def rule_r4(facts, rep, rid="C05-R4"):
         rep.violation(rid, f.def_ + "|same-node-for-uri-and-line", "a node id used for the uri/line of a location does not derive from the referrer id stream: %s" % [(n, sorted(s)) for n, s in ids], f.loc)
 
 
+DROPPERS = {"filter", "filter_map", "skip", "take", "take_while", "skip_while", "step_by", "nth", "last", "find", "find_map", "truncate", "retain", "pop", "remove", "swap_remove"}
+
+# audited droppers in the backlink consumers: (fn suffix, method, ordinal) -> reason
+DROPPERS_OK = {
+}
+
+
+def rule_r4b(facts, rep, rid="C05-R4b"):
+    """Every referrer the graph reports reaches the answer: no dropping adapter between the reference streams and the response."""
+    B = "liwe::graph::Graph::get_block_references_to"
+    I = "liwe::graph::Graph::get_inline_references_to"
+    from .common import value_chain
+    n = 0
+    for name in ("Server::handle_references", "Server::refs_counter_hints", "Server::container_hint", "Server::block_reference_hints", "liwe::model::rank::node_rank"):
+        f = facts.fn(name)
+        rep.saw_fn(f)
+        c = ctx(f)
+        counts = {}
+        seen_nodes = set()
+        for call in fb.calls_in(f.body, lambda p_: p_ in (B, I)):
+            for m in value_chain(c, call):
+                if id(m) in seen_nodes:
+                    continue
+                seen_nodes.add(id(m))
+                if m["name"] in DROPPERS and (fb.callee(m) or "").startswith(("std::iter::", "core::iter::", "itertools::", "std::vec::", "alloc::vec::", "core::slice::")):
+                    i = counts.get(m["name"], 0)
+                    counts[m["name"]] = i + 1
+                    n += 1
+                    key = "%s|%s|%d" % (f.def_, m["name"], i)
+                    why = None
+                    for (fs, mm, oo), reason in DROPPERS_OK.items():
+                        if f.def_.endswith(fs) and mm == m["name"] and oo == i:
+                            why = reason
+                    if why:
+                        rep.ok(rid, key, "audited: " + why, loc(f, m), nontrivial=False)
+                    else:
+                        rep.violation(rid, key, "`.%s(%s)` drops referrers between Graph::get_*_references_to and the answer of %s: backlinks that the library contains are not reported "
+                                      "(e.g. a note's links to itself, or everything but the first)" % (m["name"], fb.show(m["args"][0])[:60] if m["args"] else "", fb.last_seg(f.def_)), loc(f, m))
+    rep.ok(rid, "backlink-consumers|droppers-inventory", "%d dropping adapter(s) on the referrer streams" % n, None, nontrivial=False)
+
+
 def run(facts, rep, tier):
     rep.rule("C05-R1", "= C04-R2: the index walker reaches every node kind through child and next and records heading/paragraph lines and table cells.")
     rep.rule("C05-R2", "One resolver for link targets: Key::from_file_name is only applied to library-relative file names (audited callers); "
@@ -173,3 +214,10 @@ def run(facts, rep, tier):
     rule_r2(facts, rep)
     rule_r3(facts, rep)
     rule_r4(facts, rep)
+    rep.rule("C05-R4b", "Completeness of the answers: on the way from Graph::get_{block,inline}_references_to to the response of find-references / hints / rank there is no dropping adapter "
+             "(filter, skip, take, find ...) other than the audited ones.")
+    rule_r4b(facts, rep)
+    rep.rule("C05-R6", "= C14-R1 / C14-R5: a link url becomes a key by removing exactly one `.md` suffix - never by last-dot extension arithmetic (with_extension / file_stem), which also eats the `.2` of `notes-v1.2`.")
+    from . import c14
+    c14.rule_r1(facts, rep, "C05-R6")
+    c14.rule_r5(facts, rep, "C05-R6b")
